@@ -170,6 +170,8 @@ func (h *history) constructShared(kind, entry string, opts []string, ps *ProvSha
 		d.Ty = "rs.resourceServer"
 	case "te":
 		d.Ty = "tokenexchange.OAuthTokenExchange"
+	case "jp":
+		d.Ty = "profile.jwtProfileTokenSource"
 	case "ks":
 		d.Ty = "rp.remoteKeySet"
 	}
@@ -221,6 +223,8 @@ func (h *history) constructShared(kind, entry string, opts []string, ps *ProvSha
 			in = h.w.BuildRS(opts, h.sh)
 		case "te":
 			in = h.w.BuildTE(opts, h.sh)
+		case "jp":
+			in = h.w.BuildJP(opts, h.sh)
 		case "ks":
 			in = h.w.BuildKeySet(opts, h.sh)
 		}
@@ -271,6 +275,8 @@ func kindOf(in *Instance) string {
 		return "rs"
 	case in.TE != nil:
 		return "te"
+	case in.JP != nil:
+		return "jp"
 	case in.KS != nil:
 		return "ks"
 	}
@@ -410,6 +416,18 @@ func SeqStream(w *World, r *hx.Rand, tier string, n int, emit func(*hx.Line)) ma
 		out(h.construct("rp", "rp.NewRelyingPartyOIDC", []string{"rp.WithVerifierOpts", "rp.WithSigningAlgsFromDiscovery"}))
 		out(h.construct("te", "tokenexchange.NewTokenExchangerClientCredentials", []string{"tokenexchange.WithHTTPClient"}))
 		out(h.call(OpByEntry("tokenexchange.ExchangeToken"), h.insts[3]))
+		h = newHist() // deep round 4: client-side helpers that hold the SAME *http.Client and scope slice (resource server, token exchanger, two JWT profile sources)
+		out(h.construct("jp", "profile.NewJWTProfileTokenSource", []string{"profile.WithHTTPClient"}))
+		out(h.construct("rs", "rs.NewResourceServerClientCredentials", []string{"rs.WithClient", "rs.WithStaticEndpoints"}))
+		out(h.construct("jp", "profile.NewJWTProfileTokenSource", []string{"profile.WithHTTPClient", "profile.WithStaticTokenEndpoint"}))
+		out(h.construct("te", "tokenexchange.NewTokenExchangerClientCredentials", []string{"tokenexchange.WithHTTPClient", "tokenexchange.WithStaticTokenEndpoint"}))
+		out(h.call(OpByEntry("profile.jwtProfileTokenSource.TokenCtx"), h.insts[0]))
+		out(h.call(OpByEntry("rs.Introspect"), h.insts[1]))
+		out(h.call(OpByEntry("profile.jwtProfileTokenSource.Token"), h.insts[2]))
+		out(h.call(OpByEntry("tokenexchange.ExchangeToken"), h.insts[3]))
+		out(h.call(OpByEntry("profile.jwtProfileTokenSource.TokenCtx"), h.insts[0]))
+		out(h.construct("jp", "profile.NewJWTProfileTokenSource", nil)) // default client: http.DefaultClient
+		out(h.call(OpByEntry("profile.jwtProfileTokenSource.TokenCtx"), h.insts[4]))
 		h = newHist() // key set
 		out(h.construct("ks", "rp.NewRemoteKeySet", nil))
 		for i := 0; i < 5; i++ { // every token shape once against the cached key list
@@ -471,9 +489,12 @@ func SeqStream(w *World, r *hx.Rand, tier string, n int, emit func(*hx.Line)) ma
 					out(h.construct("rp", "rp.NewRelyingPartyOAuth", oo))
 					stats["construct.rp-oauth"]++
 				case 8:
-					if r.Bool() {
+					if k3 := r.Intn(3); k3 == 0 {
 						out(h.construct("rs", "rs.NewResourceServerClientCredentials", pickOpts(r, RSOpts, 50)))
 						stats["construct.rs"]++
+					} else if k3 == 1 {
+						out(h.construct("jp", "profile.NewJWTProfileTokenSource", pickOpts(r, JPOpts, 50)))
+						stats["construct.jp"]++
 					} else {
 						out(h.construct("te", "tokenexchange.NewTokenExchangerClientCredentials", pickOpts(r, TEOpts, 50)))
 						stats["construct.te"]++
@@ -551,6 +572,8 @@ var Mixes = []Mix{
 	{Name: "token-exchange", Kind: "te", Entry: "tokenexchange.NewTokenExchangerClientCredentials", Opts: []string{"tokenexchange.WithHTTPClient"},
 		Ops: []string{"tokenexchange.ExchangeToken"}},
 	{Name: "keyset", Kind: "ks", Entry: "rp.NewRemoteKeySet", Ops: []string{"rp.remoteKeySet.VerifySignature"}},
+	{Name: "jwt-profile-source", Kind: "jp", Entry: "profile.NewJWTProfileTokenSource", Opts: []string{"profile.WithHTTPClient"},
+		Ops: []string{"profile.jwtProfileTokenSource.TokenCtx", "profile.jwtProfileTokenSource.Token"}},
 	{Name: "provider-requests", Kind: "prov", Entry: "op.NewProvider", Opts: []string{"op.WithLogger"},
 		Ops: []string{"op.Discover", "op.Keys", "op.Authorize", "op.Exchange", "op.Userinfo", "op.Introspect", "op.Revoke", "op.EndSession", "op.DeviceAuthorization"}},
 	{Name: "provider-flows", Kind: "world",
@@ -617,6 +640,8 @@ func RunMix(w *World, m *Mix, r *hx.Rand, goroutines, iters int) *hx.Line {
 		in = w.BuildRS(m.Opts, h.sh)
 	case "te":
 		in = w.BuildTE(m.Opts, h.sh)
+	case "jp":
+		in = w.BuildJP(m.Opts, h.sh)
 	case "ks":
 		in = w.BuildKeySet(m.Opts, h.sh)
 	case "world":
